@@ -2,7 +2,7 @@
    Only statements here; proofs are in GCS/UploadProofs.v (and GCS/HandlerProofs.v). *)
 From Coq Require Import List NArith ZArith Bool.
 Import ListNotations.
-From Emu.Common Require Import Bytes Str StrProofs.
+From Emu.Common Require Import Bytes Str StrProofs IntProofs.
 From Emu.GCS Require Import Model CondsSpec CondsProofs HandlerProofs UploadProofs.
 Local Open Scope Z_scope.
 
@@ -91,6 +91,55 @@ Theorem C02_parse_byte_range_digits : forall a b t,
     end.
 Proof. exact parse_byte_range_digits. Qed.
 Print Assumptions C02_parse_byte_range_digits.
+
+(* strconv.ParseInt (strconv.FormatInt z) = z on int64 *)
+Theorem C02_parse_print_int_roundtrip : forall z,
+  int64_min <= z <= int64_max -> parse_int (print_int z) = Some z.
+Proof. exact parse_print_int_roundtrip. Qed.
+Print Assumptions C02_parse_print_int_roundtrip.
+
+(* the headers a client prints parse to the intended byte_range *)
+Theorem C02_chunk_header_parses : forall lo hi total,
+  0 <= lo <= int64_max -> 0 <= hi <= int64_max ->
+  match total with Some T => 0 <= T <= int64_max | None => True end ->
+  parse_byte_range (chunk_header lo hi total) = Some (mkBR lo hi (total_value total)).
+Proof. exact chunk_header_parses. Qed.
+Print Assumptions C02_chunk_header_parses.
+
+Theorem C02_status_header_parses : forall total,
+  match total with Some T => 0 <= T <= int64_max | None => True end ->
+  parse_byte_range (status_header total) = Some (mkBR (-1) (-1) (total_value total)).
+Proof. exact status_header_parses. Qed.
+Print Assumptions C02_status_header_parses.
+
+(* hence the requests of a real client (payload length in int64) are consistent steps *)
+Theorem C02_chunk_step_consistent : forall P lo len total,
+  Z.of_nat (length P) <= int64_max -> (1 <= len)%nat -> (lo + len <= length P)%nat ->
+  total = None \/ total = Some (Z.of_nat (length P)) ->
+  step_consistent P (chunk_header (Z.of_nat lo) (Z.of_nat lo + Z.of_nat len - 1) total,
+                     firstn len (skipn lo P)).
+Proof. exact chunk_step_consistent. Qed.
+Print Assumptions C02_chunk_step_consistent.
+
+Theorem C02_status_step_consistent : forall P total,
+  Z.of_nat (length P) <= int64_max ->
+  total = None \/ total = Some (Z.of_nat (length P)) ->
+  step_consistent P (status_header total, []).
+Proof. exact status_step_consistent. Qed.
+Print Assumptions C02_status_step_consistent.
+
+(* FINDINGS (outside C02's hypotheses): the declared total is not checked against the data, and
+   a re-send at a lower offset discards the bytes held beyond it *)
+Theorem C02_resume_total_smaller_than_data_witness :
+  resume_apply [] (mkBR 0 4 3) [1; 2; 3; 4; 5]%N = Some [1; 2; 3; 4; 5]%N
+  /\ resume_done (mkBR 0 4 3) [1; 2; 3; 4; 5]%N = true.
+Proof. exact resume_total_smaller_than_data_witness. Qed.
+Print Assumptions C02_resume_total_smaller_than_data_witness.
+
+Theorem C02_resume_resend_truncates_witness :
+  resume_apply [1; 2; 3; 4; 5; 6]%N (mkBR 0 1 (-1)) [1; 2]%N = Some [1; 2]%N.
+Proof. exact resume_resend_truncates_witness. Qed.
+Print Assumptions C02_resume_resend_truncates_witness.
 
 (* ---- upload, then read ---- *)
 
